@@ -217,7 +217,7 @@ fn to_py(core: &Core, ind: usize) -> String {
             col,
             conds,
         } => {
-            let conds: Vec<String> = conds.iter().map(|cond| to_py(cond, ind)).collect();
+            let conds: Vec<String> = conds.iter().map(|cond| condition(cond, conds, ind)).collect();
             format!(
                 "{{{}: {} for {} if {}}}",
                 to_py(from, ind),
@@ -230,7 +230,7 @@ fn to_py(core: &Core, ind: usize) -> String {
             format!("{} for {}", to_py(expr, ind), to_py(col, ind))
         }
         Core::Comprehension { expr, col, conds } => {
-            let conds: Vec<String> = conds.iter().map(|cond| to_py(cond, ind)).collect();
+            let conds: Vec<String> = conds.iter().map(|cond| condition(cond, conds, ind)).collect();
             format!(
                 "{} for {} if {}",
                 to_py(expr, ind),
@@ -251,6 +251,9 @@ fn to_py(core: &Core, ind: usize) -> String {
                 .collect();
             format!("{{{}}}", comma_delm(elements))
         }
+        // a builder is the sole content of its brackets (in parentheses it would be a generator)
+        Core::Set { elements } if is_builder(elements) => format!("{{{}}}", to_py(&elements[0], ind)),
+        Core::List { elements } if is_builder(elements) => format!("[{}]", to_py(&elements[0], ind)),
         Core::Set { elements } => format!("{{{}}}", comma_delimited(elements, ind)),
         Core::List { elements } => format!("[{}]", comma_delimited(elements, ind)),
 
@@ -451,6 +454,15 @@ fn precedence(core: &Core) -> u8 {
         Core::Pow { .. } => POW,
         _ => 17,
     }
+}
+
+fn is_builder(elements: &[Core]) -> bool {
+    matches!(elements, [Core::Comprehension { .. }])
+}
+
+/// A condition of a builder: several conditions are joined with `and`.
+fn condition(cond: &Core, conds: &[Core], ind: usize) -> String {
+    operand(cond, ind, if conds.len() > 1 { 5 } else { 3 })
 }
 
 fn operand(core: &Core, ind: usize, min_precedence: u8) -> String {
